@@ -503,10 +503,14 @@ class TextXVisitor(RRELVisitor):
 
                 abstract = _has_nonmatch_ref(rule)
 
-            if abstract and cls._tx_type != RULE_ABSTRACT:
-                cls._tx_type = RULE_ABSTRACT
-                has_change[0] = True
-                # Add inherited classes to this rule's meta-class
+            if abstract:
+                if cls._tx_type != RULE_ABSTRACT:
+                    cls._tx_type = RULE_ABSTRACT
+                    has_change[0] = True
+                # Add inherited classes to this rule's meta-class. This is done
+                # in each pass as, with circular rule references, a referenced
+                # rule may turn out to be abstract only in a later pass.
+                inh_by_len = len(cls._tx_inh_by)
                 if rule.rule_name and cls.__name__ != rule.rule_name:
                     if rule._tx_class not in cls._tx_inh_by:
                         cls._tx_inh_by.append(rule._tx_class)
@@ -515,11 +519,9 @@ class TextXVisitor(RRELVisitor):
                     def _add_reffered_classes(rule, inh_by, start=False):
                         if rule.root and not start:
                             _determine_rule_type(rule._tx_class)
-                            if (
-                                rule._tx_class._tx_type != RULE_MATCH
-                                and rule._tx_class not in inh_by
-                            ):
-                                inh_by.append(rule._tx_class)
+                            if rule._tx_class._tx_type != RULE_MATCH:
+                                if rule._tx_class not in inh_by:
+                                    inh_by.append(rule._tx_class)
                                 # stop after first added/found type
                                 return True
                         else:
@@ -536,6 +538,8 @@ class TextXVisitor(RRELVisitor):
                         return False
 
                     _add_reffered_classes(rule, cls._tx_inh_by, start=True)
+                if len(cls._tx_inh_by) != inh_by_len:
+                    has_change[0] = True
 
         # Multi-pass rule type resolving to support circular rule references.
         # `has_change` is a list to support outer scope variable change in
